@@ -75,6 +75,15 @@ func check(raw json.RawMessage) error {
 		if c.Multi == "hinted" {
 			hints = map[gozxing.DecodeHintType]interface{}{gozxing.DecodeHintType_POSSIBLE_FORMATS: []gozxing.BarcodeFormat{s.Format}}
 		}
+		if strings.HasPrefix(c.Multi, "all:") {
+			// every UPC/EAN format allowed, in the given order (digits index into the list below)
+			all := []gozxing.BarcodeFormat{gozxing.BarcodeFormat_EAN_13, gozxing.BarcodeFormat_EAN_8, gozxing.BarcodeFormat_UPC_A, gozxing.BarcodeFormat_UPC_E}
+			var fs []gozxing.BarcodeFormat
+			for _, d := range c.Multi[4:] {
+				fs = append(fs, all[int(d-'0')%4])
+			}
+			hints = map[gozxing.DecodeHintType]interface{}{gozxing.DecodeHintType_POSSIBLE_FORMATS: fs}
+		}
 		bmp2, _ := gozxing.NewBinaryBitmapFromImage(bm)
 		r2, err := oned.NewMultiFormatUPCEANReader(hints).Decode(bmp2, hints)
 		if err != nil {
@@ -82,7 +91,7 @@ func check(raw json.RawMessage) error {
 		}
 		got, gf := r2.GetText(), r2.GetBarcodeFormat()
 		ok := got == c.Canonical && gf == s.Format
-		if !ok && c.Multi == "unhinted" {
+		if !ok && c.Multi != "hinted" {
 			// EAN-13 with a leading 0 and UPC-A are the same symbol
 			if s.Format == gozxing.BarcodeFormat_EAN_13 && strings.HasPrefix(c.Canonical, "0") && gf == gozxing.BarcodeFormat_UPC_A && got == c.Canonical[1:] {
 				ok = true
@@ -205,9 +214,13 @@ func TestCheck(t *testing.T) {
 					}
 				}
 				if s.UPCEAN {
-					cs.Multi = rapid.SampledFrom([]string{"", "hinted", "unhinted"}).Draw(t, "multi")
+					cs.Multi = rapid.SampledFrom([]string{"", "hinted", "unhinted", "all"}).Draw(t, "multi")
+					if cs.Multi == "all" {
+						perm := rapid.SampledFrom([]string{"0123", "2013", "2301", "3210", "1230", "2103", "0213", "3021"}).Draw(t, "order")
+						cs.Multi = "all:" + perm
+					}
 					if cs.Multi != "" {
-						cl += ";multi_" + cs.Multi
+						cl += ";multi_" + strings.SplitN(cs.Multi, ":", 2)[0]
 					}
 				}
 				raw, _ := json.Marshal(cs)
